@@ -8,6 +8,7 @@ are statements about the model `importModule` / `runScripts` (Model.lean), which
 run ties to the Go code.  Helper lemmas and the invariants live in Proofs.lean.
 -/
 import GPy.C19.Refine
+import GPy.C19.DynProofs
 import GPy.C19.Generated
 namespace GPy.C19
 
@@ -170,7 +171,7 @@ registered Go module, nor a file in any sys.path directory raises ImportError an
 theorem missing_is_importerror (env : Env) (fuel : Nat) (name : String) (st : St)
     (h1 : st.store.get name = none) (h2 : env.goMods.get name = none) (h3 : ∀ d ∈ env.dirs, d.get name = none) :
     importModule env (fuel + 1) name st = (st, .error (.raise .importError)) := by
-  have hres : ∀ (dirs : List (Dict Src)) i, (∀ d ∈ dirs, d.get name = none) → resolve dirs i name = none := by
+  have hres : ∀ (dirs : List (Dict Src)) i, (∀ d ∈ dirs, d.get name = none) → resolve env.lab dirs i name = none := by
     intro dirs
     induction dirs with
     | nil => intro i _; rfl
@@ -402,7 +403,7 @@ theorem order_swapped_witness (n : Nat) (st : St) (h : st.store.get "m0" = none)
   induction n generalizing st with
   | zero => simp [importModuleO, h]
   | succ n ih =>
-    have hres : resolve selfEnv.dirs 0 "m0" = some ("d0/m0.py", .code [.plain (.imp "m0")]) := by decide
+    have hres : resolve selfEnv.lab selfEnv.dirs 0 "m0" = some ("d0/m0.py", .code [.plain (.imp "m0")]) := by decide
     have hgo : selfEnv.goMods.get "m0" = none := rfl
     unfold importModuleO
     simp only [h, hgo, hres, show swappedOrders.importFile = [.runCode, .register, .unregister] from rfl,
@@ -432,5 +433,193 @@ example : kfDotted exEnv [[.plain (.imp "m0"), .plain (.impAs "m0" "again"), .tr
 example :
     let env : Env := { goMods := [], dirs := [[("m0", .code [.plain (.bind "x" 1), .plain (.from_ "m0" [("x", "y"), ("y", "z")])])]] }
     ((Spec.runScripts env 3 [[.plain (.imp "m0")]] 0 {}).1.ns 1).get "z" = some (.int 1) := by decide
+
+/-! ## Round 3: HISTORIES – the outcome of an import depends on the current state only
+
+Dyn.lean: a world = file system + registered Go modules + contexts (each with its own store and its own
+`sys.path`); a history = steps that change `sys.path`, create / replace / delete module files and
+run scripts from several directories in several contexts.  `importNow` is ONE
+`ImportModuleLevelObject` issued now; `runSteps` executes a history. -/
+
+/-- the dynamic model the driver runs (order of effects regenerated from the Go source) is the
+hand-written one the theorems below are about -/
+theorem history_generated_model_eq (steps : List Step) (i : Nat) (w : World) :
+    runStepsO Generated.orders steps i w = runSteps steps i w := by
+  rw [generated_order_is_canonical]
+  exact runStepsO_canonical steps i w
+
+/-- **A failed import leaves the state as it was** (`failed_import_state_unchanged`), on the
+observable components.  Whatever the reason of the failure (module not found, file does not
+compile, the body raised at any depth, a nested import failed) and whatever happened before:
+`sys.path` and the list of step outcomes are untouched (the file system is not even an output of
+`importNow`), the name is NOT registered afterwards, every module that was loaded before is still
+the same object, the store is well formed, and heap and log were only EXTENDED – the partial
+effects Python keeps as well: module objects created by the failed body (garbage, or modules it
+imported successfully, which stay loaded), and its log entries; no earlier object was renamed or
+dropped, no earlier log entry changed. -/
+theorem failed_import_state_unchanged (goMods : Dict GoImpl) (cwd : String) (fs : FS) (dir : String) (fuel : Nat)
+    (name : String) (x x' : Ctx) (f : Fail) (hwf : WF x.st) (habs : x.st.store.get name = none)
+    (h : importNow goMods cwd fs dir fuel name x = (x', .error f)) :
+    x'.path = x.path ∧ x'.res = x.res ∧ x'.st.store.get name = none ∧ StoreKept x.st x'.st ∧ WF x'.st ∧
+    Extends x.st x'.st := by
+  unfold importNow at h
+  simp only [Prod.mk.injEq] at h
+  obtain ⟨h1, h2⟩ := h
+  have hr : importModule (envNow goMods cwd fs x.path dir) fuel name x.st =
+      ((importModule (envNow goMods cwd fs x.path dir) fuel name x.st).1, .error f) := by rw [← h2]
+  have k := context_usable_after_failure _ fuel name x.st _ f hwf habs hr
+  have e := importModule_extends (envNow goMods cwd fs x.path dir) fuel name x.st
+  subst h1
+  exact ⟨rfl, rfl, k.2.2, k.2.1, k.1, e⟩
+
+/-- … and when the failure is one of the SEARCH (nothing on the current `sys.path` has the file, or
+the file found does not compile) the context is exactly – every component, log included – what it
+was: nothing remembers that the attempt was made. -/
+theorem failed_search_state_unchanged (goMods : Dict GoImpl) (cwd : String) (fs : FS) (dir : String) (fuel : Nat)
+    (name : String) (x : Ctx) (h1 : x.st.store.get name = none) (h2 : goMods.get name = none)
+    (h3 : ∀ file body, resolve (envNow goMods cwd fs x.path dir).lab (envNow goMods cwd fs x.path dir).dirs 0 name
+            ≠ some (file, .code body)) :
+    ∃ e, (e = Err.importError ∨ e = Err.syntaxError) ∧
+      importNow goMods cwd fs dir (fuel + 1) name x = (x, .error (.raise e)) := by
+  unfold importNow importModule
+  have hg : (envNow goMods cwd fs x.path dir).goMods.get name = none := h2
+  simp only [h1, hg]
+  cases hres : resolve (envNow goMods cwd fs x.path dir).lab (envNow goMods cwd fs x.path dir).dirs 0 name with
+  | none => exact ⟨.importError, Or.inl rfl, rfl⟩
+  | some p =>
+    obtain ⟨file, src⟩ := p
+    cases src with
+    | bad => exact ⟨.syntaxError, Or.inr rfl, rfl⟩
+    | code body => exact absurd hres (h3 file body)
+
+/-- **The outcome of an import depends on the current state only** (core statement).  Two contexts
+with the same module objects and the same store (`SameMem`: their logs – i.e. everything that
+happened before, including every earlier failed attempt – may differ arbitrarily), the same
+`sys.path`, and two file systems with the same content directory by directory: the next import of
+any name from any directory returns the same result, leaves the same objects and the same store,
+and appends the SAME events to both logs.  The model's step function has no argument besides these
+components: a memo of earlier attempts would have to be added to `Ctx`/`World`, and this theorem
+would then fail for it. -/
+theorem import_outcome_depends_on_state_only (goMods : Dict GoImpl) (cwd : String) (fs1 fs2 : FS) (dir : String) (fuel : Nat)
+    (name : String) (x y : Ctx) (hmem : SameMem x.st y.st) (hpath : x.path = y.path) (hfs : ∀ d, fs1.dir d = fs2.dir d) :
+    (importNow goMods cwd fs1 dir fuel name x).2 = (importNow goMods cwd fs2 dir fuel name y).2 ∧
+    SameMem (importNow goMods cwd fs1 dir fuel name x).1.st (importNow goMods cwd fs2 dir fuel name y).1.st ∧
+    (importNow goMods cwd fs1 dir fuel name x).1.path = (importNow goMods cwd fs2 dir fuel name y).1.path ∧
+    ∃ t, (importNow goMods cwd fs1 dir fuel name x).1.st.trace = x.st.trace ++ t ∧
+         (importNow goMods cwd fs2 dir fuel name y).1.st.trace = y.st.trace ++ t := by
+  unfold importNow
+  simp only
+  rw [hpath, envNow_congr goMods cwd fs1 fs2 y.path dir hfs]
+  have k := importModule_sameMem (envNow goMods cwd fs2 y.path dir) fuel name x.st y.st hmem
+  exact ⟨k.1, k.2.1, rfl, k.2.2⟩
+
+/-- **History independence** (`import_outcome_history_independent`): take ANY two histories `h1`, `h2`
+(any steps: failed attempts, retries, `sys.path` and file changes, other contexts …) from any two
+worlds with the same registered Go modules and working directory.  If they lead to observably
+equal states for the contexts `c1`, `c2` – same objects, same store, same `sys.path`, same file
+contents – the next import has the same outcome in both. -/
+theorem import_outcome_history_independent (h1 h2 : List Step) (w1 w2 : World) (c1 c2 : Nat)
+    (hgo : w1.goMods = w2.goMods) (hcwd : w1.cwd = w2.cwd) (dir : String) (fuel : Nat) (name : String) :
+    let a := runSteps h1 0 w1
+    let b := runSteps h2 0 w2
+    let x := a.ctxs.getD c1 default
+    let y := b.ctxs.getD c2 default
+    SameMem x.st y.st → x.path = y.path → (∀ d, a.fs.dir d = b.fs.dir d) →
+    (importNow a.goMods a.cwd a.fs dir fuel name x).2 = (importNow b.goMods b.cwd b.fs dir fuel name y).2 ∧
+    SameMem (importNow a.goMods a.cwd a.fs dir fuel name x).1.st (importNow b.goMods b.cwd b.fs dir fuel name y).1.st := by
+  intro a b x y hmem hpath hfs
+  have ea := runSteps_static h1 0 w1
+  have eb := runSteps_static h2 0 w2
+  have e1 : a.goMods = b.goMods := by rw [ea.1, eb.1, hgo]
+  have e2 : a.cwd = b.cwd := by rw [ea.2, eb.2, hcwd]
+  rw [e1, e2]
+  have k := import_outcome_depends_on_state_only b.goMods b.cwd a.fs b.fs dir fuel name x y hmem hpath hfs
+  exact ⟨k.1, k.2.1⟩
+
+/-- **Runs once, along whole histories** (`runs_once` with failures and retries).  Start from any
+world whose contexts are fresh; execute ANY history (imports that fail because the module is
+missing, does not compile or raises; `sys.path` and file changes; retries in any form from any
+directory; several contexts).  In every context, at the end: no module object's code started
+twice; per module name the code started at most once more than imports of it failed – so a name
+that never failed ran at most once however often and in whatever form it was imported, and a name
+that is not loaded ran exactly as often as it failed; the store is well formed. -/
+theorem runs_once_histories (w : World) (hfresh : ∀ x ∈ w.ctxs, x.st.heap = [] ∧ x.st.store = [] ∧ x.st.trace = [])
+    (steps : List Step) : ∀ x ∈ (runSteps steps 0 w).ctxs,
+    (∀ id, ranCountId id x.st.trace ≤ 1) ∧
+    (∀ m, m ≠ "__main__" → ranCount m x.st.trace ≤ failedCount m x.st.trace + 1) ∧
+    (∀ m, m ≠ "__main__" → x.st.store.get m = none → ranCount m x.st.trace ≤ failedCount m x.st.trace) ∧
+    WF x.st := by
+  have h0 : ∀ x ∈ w.ctxs, CtxInv x := by
+    intro x hx
+    obtain ⟨a, b, c⟩ := hfresh x hx
+    refine ⟨?_, ?_, ?_⟩
+    · intro m id h; rw [b] at h; simp [Dict.get] at h
+    · intro i; rw [c]; simp [ranCountId]
+    · intro m _; rw [c]; simp [ranCount]
+  intro x hx
+  obtain ⟨hwf, hid, hname⟩ := runSteps_inv steps 0 w h0 x hx
+  refine ⟨fun id => (hid id).1, ?_, ?_, hwf⟩
+  · intro m hm
+    have h := hname m hm
+    have hb : (x.st.store.get m).isSome.toNat ≤ 1 := by cases (x.st.store.get m).isSome <;> simp
+    omega
+  · intro m hm habs
+    have h := hname m hm
+    rw [habs] at h
+    simpa using h
+
+/-- the invariants are inductive over every step from every world that has them -/
+theorem history_preserves_invariants (i : Nat) (w : World) (s : Step) (h : ∀ x ∈ w.ctxs, CtxInv x) :
+    ∀ x ∈ (step i w s).ctxs, CtxInv x := step_inv i w s h
+
+/-- **Contexts are isolated** (goal 3): a step addressed to another context, or a file operation,
+leaves context `j` – store, objects, log, `sys.path`, outcomes – exactly as it was; in particular a
+failed import in one context cannot influence what another context finds.  (The file system and the
+registry are shared: `import_outcome_depends_on_state_only` says those are read afresh.) -/
+theorem other_context_untouched (i : Nat) (w : World) (s : Step) (j : Nat) (hj : s.ctx ≠ some j) :
+    (step i w s).ctxs.getD j default = w.ctxs.getD j default := step_other_ctx i w s j hj
+
+/-- the spec searches the same directories (comprehension) as the model (recursion mirroring `resolveRunPath`) -/
+theorem search_now_eq_spec (goMods : Dict GoImpl) (cwd : String) (fs : FS) (path : List PEnt) (cur : String) :
+    envNow goMods cwd fs path cur = Spec.envNow goMods cwd fs path cur := envNow_eq goMods cwd fs path cur
+
+/-- **The dynamic model refines the dynamic reference interpreter**, outside C19-K01: for EVERY
+history whose scripts and written files name no dotted module (`StepOK`), from every pair of related
+worlds whose loadable bodies name none either (`WorldOK`; in particular the generator's initial
+worlds), the model (`runSteps`: per step the transliterated import machinery in the environment
+computed by the recursion that mirrors `resolveRunPath`) and the reference interpreter
+(`Spec.runSteps`: sys.modules semantics, candidate directories as a comprehension) end in related
+worlds – per context the same store, objects, log, `sys.path` and step outcomes – and render to the
+same observable (`modelV = specV` of families H, M, HR).  Excluded: dotted module names (C19-K01). -/
+theorem history_refines_spec_partial (steps : List Step) (i : Nat) (w : World) (sw : Spec.SWorld)
+    (hs : ∀ s ∈ steps, StepOK s) (hw : WorldOK w.goMods w.fs) (h : WSim w sw) :
+    WSim (runSteps steps i w) (Spec.runSteps steps i sw) ∧
+    renderWorld (runSteps steps i w) = renderSWorld (Spec.runSteps steps i sw) :=
+  let k := runSteps_sim steps i w sw hs hw h
+  ⟨k, renderWorld_congr k⟩
+
+/-- **Tie obligation (goal 2)**: the struct fields, package-level variables, literal map keys and
+`os` calls that `extract/importorder` finds on the import path of the Go source are exactly the
+ones `modelledReads` accounts for (each mapped to a component of the model's state or to the reason
+why an import's outcome cannot depend on it).  A new field or variable consulted by the import
+path – a cache – changes `Generated.importReads`, breaks this proof and is named by the check. -/
+theorem import_reads_pinned : Generated.importReads = modelledReads.map (·.1) := by decide
+
+/-! non-vacuity: the optional-dependency idiom on a concrete world -/
+
+def exWorld : World :=
+  { fs := [("d0", []), ("d1", [("late", .code [.plain (.bind "x" 1)])])], ctxs := [{ path := [.abs "d0"] }] }
+
+def exHistory : List Step :=
+  [.run 0 "s" [.tried (.imp "late")], .path 0 (.append (.abs "d1")), .run 0 "s" [.tried (.imp "late"), .tried (.impAs "late" "again")]]
+
+/-- the first attempt fails, the path is extended, the retry succeeds, the body ran once -/
+example : let x := (runSteps exHistory 0 exWorld).ctxs.getD 0 default
+    ranCount "late" x.st.trace = 1 ∧ (x.st.store.get "late").isSome ∧ x.res = ["ok", "ok", "ok"] ∧
+    (x.st.trace.filter fun e => match e with | .caught .. => true | _ => false).length = 1 := by decide
+/-- hypotheses of `failed_search_state_unchanged` / `failed_import_state_unchanged` are satisfiable -/
+example : ∃ e, importNow [] "cw" exWorld.fs "s" 3 "late" { path := [.abs "d0"] } = ({ path := [.abs "d0"] }, .error (.raise e)) :=
+  ⟨.importError, rfl⟩
+example : ∀ x ∈ exWorld.ctxs, x.st.heap = [] ∧ x.st.store = [] ∧ x.st.trace = [] := by decide
 
 end GPy.C19
